@@ -714,9 +714,9 @@ def read_op(draw, shape):
 
 
 COEF_VALUES = st.one_of(
-    st.sampled_from([0, 0.0, 1, 1.0, -1.0, 0.5, 2, -3, 1e3, -1e3, 1e-3, 0.1, -0.7]),
-    st.sampled_from([0, 0.0]),
-    st.integers(-10, 10),
+    st.sampled_from([1.0, 1, -1.0, 0.5, 2, -3, 0, 0.0, 1e3, -1e3, 1e-3, 0.1, -0.7]),
+    st.sampled_from([0.25, 0, 1.5, 0.0]),
+    st.integers(-10, 10).filter(lambda i: i != 0),
     st.floats(-1e3, 1e3, allow_nan=False, allow_infinity=False),
     st.integers(-80, 80).map(lambda i: i / 8.0),
 )
